@@ -24,7 +24,12 @@ func main() {
 	manifest := flag.Bool("manifest", false, "print MANIFEST.json generated from the rule registry")
 	overlayFile := flag.String("overlay", "", "JSON file {repo-relative file: replacement file path} applied as a go/packages overlay (used by the sensitivity corpus)")
 	mutantsOnly := flag.Bool("mutants", false, "run only the sensitivity corpus of the property (no verdict on the tree)")
+	probeOpt := flag.Bool("probe-optional", false, "exploration aid: list unguarded dereferences of optional API pointer fields")
 	flag.Parse()
+	if *probeOpt {
+		probeOptional(*repo)
+		return
+	}
 	if *manifest {
 		writeManifest(*out)
 		return
